@@ -72,7 +72,9 @@ class CHECK(core.Check):
             "of client/server serviceAll calls (runs of one side, strict alternation, server-first) followed by enough "
             "alternation to finish; 30% of the cases are pipelines of 2-5 requests (any response kinds) in which one or two "
             "requests carry `Connection: close` at any position (every position of 2-5 request pipelines and every response "
-            "kind of the close request exhaustively; some with a throttled wire); non-trivial = N >= 2 and all N responses "
+            "kind of the close request exhaustively; some with a throttled wire; 60% with throttled server-side sockets that "
+            "take 16-400 bytes per non-blocking send, or nothing every other time, and responses of up to 3000 bytes: the closing "
+            "response too must arrive complete); non-trivial = N >= 2 and all N responses "
             "delivered (close pipelines: the run settled and the responses up to the close request were delivered); "
             "distinct by content")
     TRUSTED = ["correspondence: real Patron + real Valet of $IOFLO_REPO (all real HTTP classes; tcp Client/Server/Incomer "
@@ -196,6 +198,17 @@ class CHECK(core.Check):
         for i in rng.sample(range(n), rng.choice([1, 1, 1, 2])):
             apps[i]["close"] = True
         case = {"n": n, "apps": apps, "schedule": self._schedule(rng, apps), "events": True}
+        if rng.random() < 0.6:
+            # the server's sockets take only `scap` bytes per non-blocking send: every response (head ~150 bytes + body) needs
+            # several service passes to go out, also the one after which the connection is to be closed
+            case["scap"] = rng.choice([16, 50, 120, 400])
+            case["seagain"] = rng.random() < 0.3
+            if rng.random() < 0.5:
+                big = rng.randrange(n)
+                body = bytes(rng.randrange(256) for _ in range(rng.choice([600, 3000])))
+                apps[big]["pieces"] = [body.hex()]
+                apps[big]["cl"] = rng.choice([None, len(body)])
+                apps[big]["status"], apps[big]["head"] = 200, False
         if rng.random() < 0.3:
             case["quota"] = [rng.choice([-1, 1, 7, 30, 200]) for _ in range(len(case["schedule"]) // 2)] + \
                             [-1] * (len(case["schedule"]) - len(case["schedule"]) // 2)
@@ -229,6 +242,15 @@ class CHECK(core.Check):
                     apps = [json.loads(json.dumps(stream if (j % 2) else good)) for j in range(n)]
                     apps[pos] = dict(json.loads(json.dumps(ev)), close=True)
                     yield {"n": n, "apps": apps, "schedule": "cs" * (6 * n + 6), "events": True}
+        big = {"cl": None, "pieces": [("%02x" % 7) * 900], "status": 200, "head": False}
+        bigl = {"cl": 900, "pieces": [("%02x" % 9) * 900], "status": 200, "head": False}
+        for scap in (16, 100, 500):       # throttled server-side sockets: the closing response needs many sends
+            for eag in (False, True):
+                for pos in range(3):
+                    for ev in (big, bigl, good):
+                        apps = [json.loads(json.dumps(good)) for _ in range(3)]
+                        apps[pos] = dict(json.loads(json.dumps(ev)), close=True)
+                        yield {"n": 3, "apps": apps, "schedule": "cs" * 12, "events": True, "scap": scap, "seagain": eag}
         for first in range(3):            # two close requests in one pipeline: only the first counts; server-first schedules
             apps = [json.loads(json.dumps(good)) for _ in range(4)]
             apps[first]["close"] = True
@@ -276,6 +298,10 @@ class CHECK(core.Check):
                 valet.close()
         net = D.Net({"a.test": "10.0.0.1"})
         net.relayed = True
+        if case.get("scap"):
+            # throttled server-side sockets: one non-blocking send takes `scap` bytes (every other one none at all)
+            net.server_send_cap = case["scap"]
+            net.server_send_eagain = bool(case.get("seagain"))
         net.wiretap = lambda data: wire.append(data)
         with D.patched(net):
             S = D.server_class(net)
@@ -334,7 +360,11 @@ class CHECK(core.Check):
                 time.sleep(0.0005)
         if case.get("events"):
             # pipelines with `Connection: close`: only the outcome is compared (pipeline-level model); let everything settle
-            for _ in range(8):
+            rounds = 8
+            if case.get("scap"):
+                total = sum(200 + sum(len(hb(x)) + 12 for x in a["pieces"]) for a in case["apps"])
+                rounds += (2 if case.get("seagain") else 1) * (total // case["scap"] + 2 * case["n"])
+            for _ in range(rounds):
                 if err:
                     break
                 try:
